@@ -190,6 +190,17 @@ def native_C04(tier, seed):
             lo, hi = np.array([0.0, -math.pi]), np.array([2 * math.pi, math.pi])
             t = PeriodicTransform(lower=A(lo), upper=A(hi), xp=xp, dtype=dt)
             X = rng.uniform(-50, 50, size=(200, 2))
+            # exact end points and whole periods away from them (exactly representable): upper must wrap to lower, in both directions
+            # (bounds and inputs exactly representable in float32, so that the comparison below is exact in every dtype)
+            elo, ehi = np.array([0.0, -2.0]), np.array([8.0, 2.0])
+            te = PeriodicTransform(lower=A(elo), upper=A(ehi), xp=xp, dtype=dt)
+            edge = np.array([elo, ehi, ehi + (ehi - elo), elo - (ehi - elo), 0.5 * (elo + ehi)])
+            for meth in ("forward", "inverse"):
+                ye = N(getattr(te, meth)(A(edge))[0])
+                cases += 1
+                if not ((ye >= elo).all() and (ye < ehi).all()):
+                    bad(f"C04-periodic-endpoint-{meth}-{nsname}-{dtn}", "periodic_mem", f"{meth}: an end point of the interval is not wrapped into [lower, upper): {ye.tolist()}",
+                        {"class": "PeriodicTransform", "namespace": nsname, "dtype": dtn, "x": edge.tolist()})
             y, lj = t.forward(A(X))
             cases += 1
             yy = N(y)
